@@ -138,7 +138,17 @@ def parseNode (rm : Array Nat) (nModel : Nat) (j : Json) : Except String (List (
       return [.tr2 (← ref "a") (← ref "b") (← binaryN kind)]
   | _ => do return [.tr (← ref "prev") (← unaryN j kind)]
 
+/-- monitored-directory source: successive polls of `FileStream.get` -/
+def handleFiles (j : Json) : Except String Json := do
+  let done0 ← (fromJson? (← j.getObjVal? "done0") : Except String (List String))
+  let ls ← (fromJson? (← j.getObjVal? "listings") : Except String (List (List String)))
+  let rec go (f : FileSrc) : Nat → List Json
+    | 0 => []
+    | k + 1 => let (r, f') := f.get; (match r with | some xs => toJson xs | none => Json.null) :: go f' k
+  return Json.mkObj [("model", Json.arr (go ⟨done0, ls⟩ ls.length).toArray)]
+
 def handle (j : Json) : Json := run do
+  if (j.getObjValAs? String "op").toOption == some "files" then return (← handleFiles j)
   let srcs ← (← getArr j "sources").mapM fun s => do
     let q ← (← getArr s "queue").mapM fun b => do
       let arr ← (fromJson? b : Except String (Array Json))
